@@ -465,6 +465,10 @@ class StmtMixin:
             cur.length, cur.arr = f.length, f.arr
             return
         if isinstance(cur, VSet):
+            hint = self.unit.local_kind(self, name)
+            if hint and hint.startswith("set:"):
+                for k in hint[4:].split(","):
+                    cur.members.setdefault(k, False)
             for k in list(cur.members):
                 cur.members[k] = z3.FreshConst(z3.BoolSort(), "mem_%s" % k)
             return
@@ -510,7 +514,7 @@ class StmtMixin:
         if mode == 0:
             self.pc.append(i.t < n)
             self.bind_target(s.target, mapper(i, self.list_get(it_snapshot, i.t)))
-            dec0 = self.spec_eval(spec.decreases) if spec.decreases else None
+            dec0 = self.spec_eval_value(spec.decreases) if spec.decreases else None
             try:
                 try:
                     self.exec_block(s.body)
@@ -522,7 +526,7 @@ class StmtMixin:
             self.prove_inv(spec, "inv-preserve", idx)
             self.check_body_ensures(spec, idx)
             if dec0 is not None:
-                dec1 = self.spec_eval(spec.decreases)
+                dec1 = self.spec_eval_value(spec.decreases)
                 self.prove("variant", "loop%d.decreases" % idx,
                            z3.And(self.zi(dec1) < self.zi(dec0), self.zi(dec0) >= 0))
             raise PathEnd()
@@ -571,7 +575,7 @@ class StmtMixin:
         self.assume_inv(spec)
         g = self.truth(self.eval(s.test))
         if self.branch(g, "while%d" % idx):
-            dec0 = self.spec_eval(spec.decreases) if spec.decreases else None
+            dec0 = self.spec_eval_value(spec.decreases) if spec.decreases else None
             try:
                 try:
                     self.exec_block(s.body)
@@ -582,7 +586,7 @@ class StmtMixin:
             self.prove_inv(spec, "inv-preserve", idx)
             self.check_body_ensures(spec, idx)
             if dec0 is not None:
-                dec1 = self.spec_eval(spec.decreases)
+                dec1 = self.spec_eval_value(spec.decreases)
                 self.prove("variant", "loop%d.decreases" % idx,
                            z3.And(self.zi(dec1) < self.zi(dec0), self.zi(dec0) >= 0))
             raise PathEnd()
